@@ -15,14 +15,34 @@ Unordered(v) == IF IsS(v) THEN v
                 ELSE IF IsA(v) THEN A([i \in 1..Len(v[2]) |-> Unordered(v[2][i])])
                 ELSE <<"m", {<<v[2][i][1], Unordered(v[2][i][2])>> : i \in 1..Len(v[2])}>>
 SameUpToFieldOrder(s, t) == Len(s) = Len(t) /\ \A n \in 1..Len(s) : Unordered(M(s[n])) = Unordered(M(t[n]))
+(* Diagnosis of one known defect (never an excuse: the line is reported all the same, under its own name): what   *)
+(* the pipeline would give if every reader of YAML text sorted the keys of every map by byte order.              *)
+Alphabet == <<".", "0", "1", "2", "3", "4", "5", "6", "7", "8", "9", ":", ";",
+              "a", "b", "c", "d", "e", "f", "g", "h", "i", "j", "k", "l", "m", "n", "o", "p", "q", "r", "s", "t", "u", "v", "w", "x", "y", "z">>
+Rank(c) == CHOOSE i \in 1..Len(Alphabet) : Alphabet[i] = c
+RECURSIVE LexLess(_, _)
+LexLess(a, b) == IF a = <<>> THEN b # <<>> ELSE IF b = <<>> THEN FALSE
+                 ELSE IF a[1] = b[1] THEN LexLess(Tail(a), Tail(b)) ELSE Rank(a[1]) < Rank(b[1])
+RECURSIVE SortedVal(_), SortedBody(_), InsertField(_, _)
+InsertField(f, b) == IF b = <<>> THEN <<f>> ELSE IF LexLess(f[1], b[1][1]) THEN <<f>> \o b ELSE <<b[1]>> \o InsertField(f, Tail(b))
+SortedBody(b) == IF b = <<>> THEN <<>> ELSE InsertField(<<b[1][1], SortedVal(b[1][2])>>, SortedBody(Tail(b)))
+SortedVal(v) == IF IsS(v) THEN v ELSE IF IsA(v) THEN A([i \in 1..Len(v[2]) |-> SortedVal(v[2][i])]) ELSE M(SortedBody(v[2]))
+RECURSIVE PathIfYamlSorts(_, _, _, _)
+PathIfYamlSorts(path, sep, noun, s) ==
+  IF Len(path) < 2 THEN s
+  ELSE PathIfYamlSorts(Tail(path), sep, noun,
+         ConvertAB(path[1], path[2], sep, noun /\ Len(path) = 2, IF path[1] = "yaml" THEN [n \in 1..Len(s) |-> SortedBody(s[n])] ELSE s))
+
 Conforms ==
   LET o == Obs[l] IN
   CASE o.t = "path" ->
-         IF ~(Carries(o.path[1], o.s) /\ InDomain(o.path, o.sep, o.noun, o.s))
+         LET w == Walk(o.path, o.sep, o.noun, o.s) IN
+         IF ~(Carries(o.path[1], o.s) /\ w[1])
          THEN PrintT(ToJson([line |-> l, why |-> "outside"]))
-         ELSE LET exp == ConvertPath(o.path, o.sep, o.noun, o.s) IN
-              (o.exit = 0 /\ o.out = exp)
-              \/ PrintT(ToJson([line |-> l, why |-> IF o.exit # 0 THEN "failed" ELSE IF SameUpToFieldOrder(o.out, exp) THEN "field-order" ELSE "records"]))
+         ELSE (o.exit = 0 /\ o.out = w[2])
+              \/ PrintT(ToJson([line |-> l, why |-> IF o.exit # 0 THEN "failed"
+                                                        ELSE IF o.out = PathIfYamlSorts(o.path, o.sep, o.noun, o.s) THEN "yaml-reader-sorts-keys"
+                                                        ELSE IF SameUpToFieldOrder(o.out, w[2]) THEN "field-order" ELSE "records"]))
     [] o.t = "flag" ->
          /\ (o.exit = 0 /\ o.flagout = o.expout) \/ PrintT(ToJson([line |-> l, why |-> "differs-from-expansion"]))
          /\ (o.exit = 0 /\ o.recs = ConvertPath(<<o.in, o.out, "jsonl">>, o.sep, FALSE, Probe(o.probe)))
